@@ -100,6 +100,10 @@ func newWorld(cfg ref.Config, ch *env.Chooser, clock *env.Clock) *World {
 func guard(f func()) (panicked string) {
 	defer func() {
 		if e := recover(); e != nil {
+			if r, ok := e.(env.Runaway); ok {
+				panicked = "RUNAWAY: " + r.What
+				return
+			}
 			st := string(debug.Stack())
 			if harnessPanic(st) {
 				panic(fmt.Sprintf("panic raised in harness code, not in the library: %v\n%s", e, st))
